@@ -11,8 +11,8 @@ import json, os, time
 import vcommon as V
 
 META = dict(
-    text="Lean 4 theorems (Props/C10.lean) about an executable model of SexpToGoStructs/fillJsonMap/FillHashFromShadow/toGoHelper/CallGoMethodFunction over an abstract Go type descriptor. One conversion: a key that names no field (by json tag, name, capitalised name, through embedded structs) or is not a string/symbol fails the conversion whatever else the record holds; every field named by the record ends up holding exactly the converted value when no other pair writes an overlapping path; a record already in the dedup cache converts to the same Go object (pointer and interface targets); scalar kind pairs outside the spec's exact-conversion table are errors and pairs inside it store exactly the spec's value; each holds for an arbitrary function doing the nested levels, hence for every nesting depth. Field table, for EVERY embedding depth: each entry's EmbedPath leads field by field to a declared field with the entry's key and type; no two entries share a path; 'last table entry with the key' is exactly the spec's 'search the declarations from the last to the first through embedded structs' (model = spec for lookups). Histories, for ALL sequences of togo / hset / method calls from any state: the script's records are changed by hset only; a record passed to a Go method is converted from its current fields alone (the answer equals that of a never-converted record with these fields: no stale cache); (togo r) on a record with an attached struct runs the field loop over the current pairs. The descriptor and the models are tied to the real code by two channels: togo (reflect-extracted descriptors on every op, exhaustive field-type x value-kind grid over 15 registered struct types with embedding depth 0..4, two embedded siblings, by-value struct slices, pointers/interfaces inside embedded levels; type-directed random values with sharing; ill-formed stream) and togohist (a generated record lives through 2..8 steps: togo, hset of generated well-typed values on any record of the tree, identity method, argument-mutating method, read, receiver call; each op run three times against Go's random map iteration).",
-    note="PARTIAL. Not proved: the round trip as one theorem (fromGo(toGo r) = complete r); the full statement 'every conversion step answers from the current fields only' is REFUTED for (togo r) on a record that already has a struct attached (Props: togo_reflects_current_record_counterexample = keyed known finding: a by-value struct field keeps content the new nested record does not name) and proved for argument conversions and unattached records (togo_reflects_current_record_partial). Unspecified by the property text and accepted either way (spec answer `?`): what a method RECEIVER shows after the record changed since its struct was attached; object identity across conversions. Trusted: Lean kernel; axioms propext/Classical.choice/Quot.sound; Go's reflect (abstracted by descriptors the harness reads from the live types); the canonical dumpers in harness/ch_togo.go and Driver/Togo.lean; the harness's own Touch method and its Lean twin; differential testing bounds. Outside the model: record-into-string-field (printed text), script-only record types in interface{}, hdel, two spellings of one key, cycles, methods mutating their receiver. Known findings: a time.Time does not come back from Go (Test018 pins time:nil); the by-value refill above; a struct type with an embedded pointer cannot be made into a record (fix proposal C10-06).",
+    text="Lean 4 theorems (Props/C10.lean) about an executable model of SexpToGoStructs/fillJsonMap/FillHashFromShadow/toGoHelper/CallGoMethodFunction over an abstract Go type descriptor. One conversion: a key that names no field (by json tag, name, capitalised name, through embedded structs) or is not a string/symbol fails the conversion whatever else the record holds; every field named by the record ends up holding exactly the converted value when no other pair writes an overlapping path; a record already in the dedup cache converts to the same Go object (pointer and interface targets); scalar kind pairs outside the spec's exact-conversion table are errors and pairs inside it store exactly the spec's value; each holds for an arbitrary function doing the nested levels, hence for every nesting depth. Field table, for EVERY embedding depth: each entry's EmbedPath leads field by field to a declared field with the entry's key and type; no two entries share a path; 'last table entry with the key' is exactly the spec's 'search the declarations from the last to the first through embedded structs' (model = spec for lookups). Histories, for ALL sequences of togo / hset / method calls from any state: the script's records are changed by hset only; a record passed to a Go method is converted from its current fields alone (the answer equals that of a never-converted record with these fields: no stale cache); (togo r) on a record with an attached struct runs the field loop over the current pairs. The descriptor and the models are tied to the real code by two channels: togo (reflect-extracted descriptors on every op, exhaustive field-type x value-kind grid over 16 registered struct types (one with an embedded pointer) with embedding depth 0..4, two embedded siblings, by-value struct slices, pointers/interfaces inside embedded levels; type-directed random values with sharing; ill-formed stream) and togohist (a generated record lives through 2..8 steps: togo, hset of generated well-typed values on any record of the tree, identity method, argument-mutating method, read, receiver call; each op run three times against Go's random map iteration).",
+    note="PARTIAL. Not proved: the round trip as one theorem (fromGo(toGo r) = complete r); the full statement 'every conversion step answers from the current fields only' is REFUTED for (togo r) on a record that already has a struct attached (Props: togo_reflects_current_record_counterexample = keyed known finding: a by-value struct field keeps content the new nested record does not name) and proved for argument conversions and unattached records (togo_reflects_current_record_partial). Unspecified by the property text and accepted either way (spec answer `?`): what a method RECEIVER shows after the record changed since its struct was attached; object identity across conversions. Trusted: Lean kernel; axioms propext/Classical.choice/Quot.sound; Go's reflect (abstracted by descriptors the harness reads from the live types); the canonical dumpers in harness/ch_togo.go and Driver/Togo.lean; the harness's own Touch method and its Lean twin; differential testing bounds. Outside the model: record-into-string-field (printed text), script-only record types in interface{}, hdel, two spellings of one key, cycles, methods mutating their receiver. Known findings: a time.Time does not come back from Go (Test018 pins time:nil); the by-value refill above.",
     technique="Lean 4 proof over an abstract reflect descriptor (induction on embedding depth, on field lists, on histories) + model/implementation/spec correspondence with reflect-extracted descriptors",
     design_ref="DESIGN.md §7 C10, §14.4",
 )
@@ -127,7 +127,7 @@ def run(rep):
         for k in ("impl", "model", "spec"):
             s[k] = s[k][:300]
     rep.coverage["exhaustive"] = False
-    rep.coverage["rule"] = ("togo grid: every field of every registered struct type (15 types, embedding depth 0..4) x every value-kind sample (exhaustive over that finite grid); "
+    rep.coverage["rule"] = ("togo grid: every field of every registered struct type (16 types, embedding depth 0..4, embedded pointer) x every value-kind sample (exhaustive over that finite grid); "
                             "togo random: a Go value is generated from the reflect type (nesting depth <= 3, shared objects, nil/empty/filled slices and maps, interfaces), "
                             "its canonical dump is the expectation and the record term is derived from it; ill-formed: unknown fields, non-symbol keys, wrong-kind "
                             "values, retyped records; togohist: a generated record lives through 2..8 steps (togo / hset of a well-typed generated value on any record of the "
